@@ -29,7 +29,12 @@ def check_het(name, blk, calib, out):
     D, Dbeg = d['D'], d['Dbeg']
     sig = lambda what: dict(op=what, block=name)
     if abs(D.sum() - 1) > 1e-9 or abs(Dbeg.sum() - 1) > 1e-9 or D.min() < -1e-12 or Dbeg.min() < -1e-12:
-        C.push(out, dict(what='reported distribution is not a probability distribution', input=inp, signature=sig('distribution')))
+        # a distinguishable sub-case (known finding D27): total mass is one, but households with positive mass choose assets ABOVE the top grid point, where the
+        # mean-preserving lottery extrapolates with a negative weight on the second-highest point
+        above = [bool((d[p] > d[p + '_grid'][-1] + 1e-12).any()) for p in blk.policy]
+        cond = 'mass-above-top-grid-point' if (abs(D.sum() - 1) <= 1e-9 and abs(Dbeg.sum() - 1) <= 1e-9 and any(above)) else 'general'
+        C.push(out, dict(what='reported distribution is not a probability distribution' + (' (negative masses next to the top grid point: policies leave the grid at the top)' if cond != 'general' else ''),
+                         input=inp, observed=dict(min_mass=float(min(D.min(), Dbeg.min())), total=float(D.sum())), signature=dict(sig('distribution'), cond=cond)))
     exo, pol = list(blk.exogenous), list(blk.policy)
     Dx = Dbeg
     for dim, k in enumerate(exo):
@@ -80,7 +85,16 @@ def check(rng, deep):
                     if k in c:
                         c[k] = c[k] * (1 + 0.05 * nr.normal())
             n += 1
-            check_het(name, blk, c, out)
+            try:
+                check_het(name, blk, c, out)
+            except ValueError as ex:
+                # perturbed calibrations (thorough tier) may have no stationary equilibrium (e.g. beta (1 + r) too close to one): the documented
+                # 'No convergence' raise is the correct outcome there -- "failure to converge raises rather than returning"; the base calibrations must converge
+                if rep == 0 or 'No convergence' not in str(ex):
+                    raise
+    # probe of known finding D27 (every tier): the shipped extended household at a patient calibration whose savers leave the 80-unit grid at the top
+    n += 1
+    check_het('sim_shipped', m.sim_shipped, dict(m.SIM_SHIPPED_CALIB, r=0.002500153769169685, beta=0.994638531337915), out)
     # stage block steady state: forward iteration limit raises too
     n += 1
     try:
